@@ -90,6 +90,8 @@ impl Property for C03 {
             ("lied:refused-by-aggregate".into(), m),
             ("honest:signer-refused".into(), m),
             ("honest:coordinator-refused".into(), m),
+            ("honest:rerandomized-signer-refused".into(), m),
+            ("tr:tweaked-entry-points-refused".into(), 5),
             ("control:t-shares-reconstruct".into(), m),
         ]
     }
@@ -288,6 +290,40 @@ fn sub_case<C: Suite>(ctx: &mut Ctx, keys: &Keys<C>, holders: &[Id<C>], msg: &[u
         }
         let r = rr::aggregate::<C>(&package, &shares, &keys.pubkeys, &params);
         ensure!(ctx, matches!(r, Err(Error::IncorrectNumberOfShares)), "C03/coordinator-does-not-refuse", "frost_rerandomized::aggregate with {} < t={} shares returned {:?}", k, t, r.as_ref().map(|_| "Ok(signature)"));
+    }
+
+    // the other signer-side entry points refuse as well: re-randomized signing (explicit randomizer and seed) and, for
+    // the Taproot suite, signing with the tweak; the tweaked coordinator entry point refuses the lying holders' shares
+    {
+        use frost_rerandomized as rr;
+        let rz = rr::Randomizer::<C>::from_scalar(sc_rand::<C>(rng.next()));
+        let seed = rng.bytes(32);
+        for id in holders {
+            #[allow(deprecated)]
+            let r = rr::sign::<C>(&package, &nonces[id], &keys.kps[id], rz);
+            ensure!(ctx, r.is_err(), "C03/signer-does-not-refuse", "frost_rerandomized::sign produced a share for {} < t={} commitments", k, t);
+            let r = rr::sign_with_randomizer_seed::<C>(&package, &nonces[id], &keys.kps[id], &seed);
+            ensure!(ctx, r.is_err(), "C03/signer-does-not-refuse", "frost_rerandomized::sign_with_randomizer_seed produced a share for {} < t={} commitments", k, t);
+        }
+        if C::SID.taproot() {
+            for root in [None, Some(rng.bytes(32))] {
+                let root_ref = root.as_deref();
+                let mut tw = BTreeMap::new();
+                for id in holders {
+                    let r = C::tr_sign_with_tweak(&package, &nonces[id], &keys.kps[id], root_ref).unwrap();
+                    ensure!(ctx, r.is_err(), "C03/signer-does-not-refuse", "sign_with_tweak (root {}) produced a share for {} < t={} commitments", if root.is_some() { "present" } else { "absent" }, k, t);
+                    if let Ok(s) = C::tr_sign_with_tweak(&package, &nonces[id], &lying_kp::<C>(&keys.kps[id], lied), root_ref).unwrap() {
+                        tw.insert(*id, s);
+                    }
+                }
+                if tw.len() == holders.len() {
+                    let r = C::tr_aggregate_with_tweak(&package, &tw, &keys.pubkeys, root_ref).unwrap();
+                    ensure!(ctx, matches!(r, Err(Error::IncorrectNumberOfShares)), "C03/coordinator-does-not-refuse", "aggregate_with_tweak with {} < t={} shares returned {:?} instead of IncorrectNumberOfShares", k, t, r.as_ref().map(|_| "Ok(signature)"));
+                    ctx.label("tr:tweaked-entry-points-refused");
+                }
+            }
+        }
+        ctx.label("honest:rerandomized-signer-refused");
     }
 
     // (c) everybody lies, coordinator included: Some(lied) and the legacy None
